@@ -123,6 +123,11 @@ void run_queue(hx::Desc& d) {
     long cap = Bounded ? (long)sim::draw_range(0, 4, "cap") : 0;   // 0: unbounded
     static const int prefills[] = {0, 0, 1, 7, 8, 9, 30, 31, 33};
     int prefill = sim::draw_of(prefills, "prefill");
+    // items that are already stored when the concurrent part begins; for the bounded queue they are pushed under the
+    // default (infinite) capacity and the capacity is set afterwards, so that it may lie BELOW the current size
+    // ("capacity changes": set_capacity is not a concurrent operation, it is issued at quiescence)
+    static const int residents[] = {0, 0, 0, 1, 2, 3, 5};
+    int resident = sim::draw_of(residents, "resident");
     // Fault-free and fault-injecting configurations are run separately (a relaxation needed for one must
     // not hide an ordinary bug in the other):  0,1 = strict (no faults), 2 = throwing constructor /
     // allocator, 3 = abort() from an extra fiber at a random point.
@@ -138,8 +143,8 @@ void run_queue(hx::Desc& d) {
     bool coordinator_aborted = false;
     std::vector<std::vector<Plan>> plan(nthreads);
     int total = 0;
-    d.add(hx::fmt("%s elem=%dB cap=%ld prefill=%d mode=%s throw_at=%d alloc_fail_at=%d", Bounded ? "bounded_queue" : "queue", (int)sizeof(E), cap, prefill, mode_name,
-                  faults.throw_at, faults.alloc_fail_at));
+    d.add(hx::fmt("%s elem=%dB cap=%ld prefill=%d mode=%s throw_at=%d alloc_fail_at=%d resident=%d", Bounded ? "bounded_queue" : "queue", (int)sizeof(E), cap, prefill, mode_name,
+                  faults.throw_at, faults.alloc_fail_at, resident));
     for (int t = 0; t < nthreads; ++t) {
         int nops = (int)sim::draw_range(1, 6, "nops");
         std::string s = hx::fmt("T%d:", t);
@@ -156,15 +161,18 @@ void run_queue(hx::Desc& d) {
     d.publish();
 
     Q* q = new Q;
-    if (Bounded && cap) q_setcap(*q, cap, 0);
+    if (Bounded && cap && !resident) q_setcap(*q, cap, 0);
     // sequential prefill/drain moves the ticket counters close to page boundaries
     for (int i = 0; i < prefill; ++i) {
         q->push(E(900000 + i));
         E e; bool ok = q->try_pop(e); SIM_CHECK(ok && e.id == (uint64_t)(900000 + i), "oracle:fifo", "sequential prefill came out wrong");
     }
+    std::vector<Ev> hist;
+    QModel m0;                                    // model state at the start of the concurrent part
+    for (int i = 0; i < resident; ++i) { q->push(E(800000 + i)); m0.q.push_back(800000 + i); }
+    if (Bounded && cap && resident) { q_setcap(*q, cap, 0); if (resident > cap) sim::probe("capacity-below-size"); }
     faults.armed = true;
 
-    std::vector<Ev> hist;
     std::vector<int> blocked_state(nthreads, 0);   // 1: inside blocking push, 2: inside blocking pop
     int aborted_ops = 0, threw_ops = 0, ghosts = 0;
     std::vector<std::function<void()>> fns;
@@ -224,7 +232,7 @@ void run_queue(hx::Desc& d) {
             for (int t = 0; t < nthreads; ++t) { if (blocked_state[t] == 1) ++bpush; if (blocked_state[t] == 2) ++bpop; }
             long pushed = 0, popped = 0;   // net content according to completed operations
             for (auto& e : hist) { if ((e.op.k == PUSH || e.op.k == EMPLACE || e.op.k == TRY_PUSH) && e.op.ok) ++pushed; if ((e.op.k == POP || e.op.k == TRY_POP) && e.op.ok) ++popped; }
-            long stored = pushed - popped;
+            long stored = resident + pushed - popped;
             SIM_CHECK(bpush + bpop > 0, "deadlock", "fibers blocked outside a blocking queue operation");
             SIM_CHECK(!(bpop > 0 && stored > 0), "deadlock", "[mode=%s] lost wake-up: %d pop() call(s) blocked forever although %ld item(s) are stored", mode_name, bpop, stored);
             SIM_CHECK(!(bpush > 0 && cap && stored + ghosts < cap), "deadlock", "[mode=%s] lost wake-up: %d push() call(s) blocked forever although only %ld of %ld slots are used", mode_name, bpush, stored, cap);
@@ -251,6 +259,7 @@ void run_queue(hx::Desc& d) {
     // duplicates / invented values (cheap, gives a precise message before the general check)
     {
         std::map<uint64_t, int> pushes, pops;
+        for (uint64_t v : m0.q) pushes[v]++;
         for (auto& e : hist) {
             if ((e.op.k == PUSH || e.op.k == EMPLACE || e.op.k == TRY_PUSH) && e.op.ok) pushes[e.op.v]++;
             if ((e.op.k == POP || e.op.k == TRY_POP) && e.op.ok) pops[e.op.v]++;
@@ -261,12 +270,12 @@ void run_queue(hx::Desc& d) {
         }
         for (auto& kv : pushes) SIM_CHECK(pops.count(kv.first), "oracle:lost-item", "[mode=%s] value %llu was pushed but never came out (queue drained to empty)", mode_name, (unsigned long long)kv.first);
     }
-    QModel m; m.cap = cap;
+    QModel m = m0; m.cap = cap;
     lin::Checker<QModel, QOp> chk;
     std::string why;
     bool ok = chk.check(hist, m, &why);
     if (!ok && ghosts) {
-        QModel gm; gm.cap = cap; gm.ghosts = true;
+        QModel gm = m0; gm.cap = cap; gm.ghosts = true;
         std::string why2;
         if (chk.check(hist, gm, &why2))
             sim::fail("oracle:ghost-capacity", "history is linearizable only if the %d push(es) that ended with an exception keep occupying a capacity slot until a pop passes them (cap=%ld): %s; history:%s",
